@@ -350,9 +350,84 @@ func (x *Engine) doAlloc(fr *Frame, st *State, i *ssa.Alloc) Val {
 		}
 		return Val{T: r, Typ: i.Type(), Fresh: true}
 	}
+	if x.privateCell(fr, i) {
+		// a captured local that only this function and its own closures can reach: kept beside the heap, so that
+		// code this function calls (which has no way to name it) cannot change it
+		x.n++
+		pk := fmt.Sprintf("$priv:%d", x.n)
+		x.regComp(pk, x.sortOf(t))
+		x.privAlloc[pk] = i
+		st.h[pk] = x.zero(t)
+		return Val{T: r, Typ: i.Type(), Fresh: true, Addr: &Addr{Kind: "priv", Key: pk, Ref: r}}
+	}
 	key := x.memKey(t)
 	x.set(st, key, fmt.Sprintf("(store %s %s %s)", x.get(st, key), r, x.zero(t)))
 	return Val{T: r, Typ: i.Type(), Fresh: true}
+}
+
+// privateCell: the address of this scalar local is used only to load and store it — here and in function literals of
+// this function that are themselves only called or deferred on the spot (never stored, passed on, or started as a
+// goroutine) and have no contract of their own — and the allocation is not inside a loop.
+func (x *Engine) privateCell(fr *Frame, a *ssa.Alloc) bool {
+	if a.Referrers() == nil || a.Block() == nil {
+		return false
+	}
+	for _, li := range fr.loops {
+		if li.blocks[a.Block()] {
+			return false
+		}
+	}
+	var onlyLoadStore func(v ssa.Value, depth int) bool
+	onlyLoadStore = func(v ssa.Value, depth int) bool {
+		if v.Referrers() == nil {
+			return false
+		}
+		for _, r := range *v.Referrers() {
+			switch u := r.(type) {
+			case *ssa.DebugRef:
+			case *ssa.UnOp:
+				if u.Op != token.MUL {
+					return false
+				}
+			case *ssa.Store:
+				if u.Addr != v || u.Val == v {
+					return false
+				}
+			case *ssa.MakeClosure:
+				if depth > 0 {
+					return false
+				}
+				fn, ok := u.Fn.(*ssa.Function)
+				if !ok || x.db.Funcs[specKeyOf(fn)] != nil || u.Referrers() == nil {
+					return false
+				}
+				for _, cr := range *u.Referrers() {
+					switch cu := cr.(type) {
+					case *ssa.DebugRef:
+					case *ssa.Defer:
+						if cu.Call.Value != ssa.Value(u) {
+							return false
+						}
+					case *ssa.Call:
+						if cu.Call.Value != ssa.Value(u) {
+							return false
+						}
+					default:
+						return false
+					}
+				}
+				for k, b := range u.Bindings {
+					if b == v && !onlyLoadStore(fn.FreeVars[k], depth+1) {
+						return false
+					}
+				}
+			default:
+				return false
+			}
+		}
+		return true
+	}
+	return onlyLoadStore(a, 0)
 }
 
 func (x *Engine) indexAddr(fr *Frame, st *State, i *ssa.IndexAddr) Val {
